@@ -27,6 +27,7 @@ type c16Cell struct {
 	Kind     string `json:"kind"` // backend | index | failover | invalidator
 	Backend  string `json:"backend,omitempty"`
 	Strategy int    `json:"strategy,omitempty"`
+	PerCall  bool   `json:"percall,omitempty"` // TimeToLive=UnlimitedTTL and writes carry a per-call TTL
 	A        int    `json:"a"`
 	B        int    `json:"b"`
 	C        int    `json:"c"` // third op, -1 = none
@@ -47,6 +48,10 @@ func c16Cells(tier string) []Cell {
 			for a := range c16BackendOps {
 				for bb := a; bb < len(c16BackendOps); bb++ {
 					cells = append(cells, Cell{ID: c16Cell{Kind: "backend", Backend: b, Strategy: s, A: a, B: bb, C: -1}.id()})
+
+					if s == 0 {
+						cells = append(cells, Cell{ID: c16Cell{Kind: "backend", Backend: b, Strategy: s, PerCall: true, A: a, B: bb, C: -1}.id()})
+					}
 				}
 			}
 
@@ -203,6 +208,13 @@ func c16BackendBody(cc c16Cell) func() {
 		vclock.AutoTick = true
 
 		cfg := cache.Config{Name: "c16", ExpirationJitter: -1, TimeToLive: 5 * time.Minute, EvictionStrategy: cache.EvictionStrategy(cc.Strategy)}
+		wctx := context.Background()
+
+		if cc.PerCall {
+			cfg.TimeToLive = cache.UnlimitedTTL
+			wctx = cache.WithTTL(wctx, time.Hour, false)
+		}
+
 		b := newBackend(cc.Backend, cfg)
 		evictCfg := cfg
 		evictCfg.EvictionNeeded = func() bool { return true }
@@ -217,7 +229,12 @@ func c16BackendBody(cc c16Cell) func() {
 		ctx := context.Background()
 
 		_ = b.Write(ctx, keys[0], 1)
-		_ = b.Write(cache.WithTTL(ctx, -48*time.Hour, false), keys[1], 2)
+
+		if !cc.PerCall {
+			// (with PerCall the first explicit TTL must come from the racing operations themselves)
+			_ = b.Write(cache.WithTTL(ctx, -48*time.Hour, false), keys[1], 2)
+		}
+
 		_ = b.Write(ctx, keys[2], 3)
 		b.Index().AddInvalidationLabels(keys[1], "L")
 		b.Index().AddInvalidationLabels(keys[0], "L")
@@ -236,7 +253,7 @@ func c16BackendBody(cc c16Cell) func() {
 				case 0:
 					_, _ = b.Read(ctx, keys[0])
 				case 1:
-					_ = b.Write(ctx, keys[0], 9)
+					_ = b.Write(wctx, keys[0], 9)
 				case 2:
 					_ = b.Delete(ctx, keys[0])
 				case 3:
@@ -372,6 +389,9 @@ func c16Run(c Cell, env *Env) CellResult {
 	case "backend":
 		body = c16BackendBody(cc)
 		name = fmt.Sprintf("%s/%s %s || %s", cc.Backend, strategyNames[cc.Strategy], c16BackendOps[cc.A], c16BackendOps[cc.B])
+		if cc.PerCall {
+			name += " (UnlimitedTTL, writes with per-call TTL)"
+		}
 
 		if cc.C >= 0 {
 			name += " || " + c16BackendOps[cc.C]
